@@ -69,7 +69,7 @@ def main(chk: core.Check) -> int:
                         "memory safety of pybind11/numpy glue and of std::vector/std::map themselves is outside the model"]
     ok_gen = rc.regen(chk, python_side=False)
     if ok_gen:
-        chk.prove(modules=["C15", "RawTie"])
+        chk.prove(modules=["C15", "RawTie", "RawCppTie"])
     n_streams, per_stream, n_random = (1500, 120, 20000) if thorough else (60, 50, 800)
     bufs, kinds = gen_buffers(rng, n_streams, per_stream, n_random)
     # corpus first: the buffers that exposed the original defect
